@@ -145,7 +145,7 @@ def random_feedback(rng, frac=False):
         # a history either uses scores that are not whole percents (eighths: exactly representable, so the float sum
         # is exact and the tie rule of the final rounding is well defined) together with integers, or none of them
         form = rng.choice(["+N", "-N", "int", "negint", "eighth", "eighth%", "eighth", "eighth%"] if frac else
-                          ["+N", "-N", "N%", "+N%", "-N%", "int", "float", "negint"])
+                          ["+N", "-N", "N%", "+N%", "-N%", "int", "float", "negint", "tiny"])
         if form == "+N":
             f["raw_score"], f["centi"] = "+%d" % n, n * 100
         elif form == "-N":
@@ -160,6 +160,8 @@ def random_feedback(rng, frac=False):
             f["raw_score"], f["centi"] = n, n * 100
         elif form == "negint":
             f["raw_score"], f["centi"] = -n, -n * 100
+        elif form == "tiny":          # a float whose str() uses exponent notation; far below the rounding step
+            f["raw_score"], f["centi"] = rng.choice([1e-05, 2.5e-07]), 0
         elif form == "eighth":        # not a whole number of percent; exactly representable, so sums are exact
             k = rng.choice([1, 3, 5, 7, 9])
             f["raw_score"], f["centi"], f["milli"] = k / 8, 0, k * 125
